@@ -71,7 +71,8 @@ Theorem gip_solves (a b q e : V) (ta tb : R) :
   vadd a (vscale (vsub b a) ta) = vadd q (vscale (vsub e q) tb).
 Proof.
   unfold seg_get_intersection_pt, seg_get_intersection_pt_tag. cbn [sstart send seg_new].
-  destruct (vis_same_direction _ _); [discriminate|]. destruct (vis_zero _); [discriminate|].
+  destruct (vis_same_direction _ _); [discriminate|].
+  match goal with |- context [if ?c then (None, 2%N) else _] => destruct c; [discriminate|] end.
   destruct a as [a1 a2 a3], b as [b1 b2 b3], q as [q1 q2 q3], e as [e1 e2 e3].
   unfold vcross, vsub, vdot, vadd, vscale, c1em5. cbn [vx vy vz fst]. rnum. intros H HT.
   set (A1 := (b1 - a1)%R) in *. set (A2 := (b2 - a2)%R) in *. set (A3 := (b3 - a3)%R) in *.
@@ -109,7 +110,7 @@ Proof. ring. Qed.
 (** under the library's own non-degeneracy thresholds the solve does return parameters *)
 Theorem gip_some (a b q e : V) :
   / 100000 <= vlen2 (vcross (vsub b a) (vsub e q)) ->
-  vis_zero (vcross (vsub a q) (vcross (vsub b a) (vsub e q))) = false ->
+  vdot (vsub a q) (vcross (vsub b a) (vsub e q)) = 0 ->      (* coplanar: what the code tests since fix ec384e6 (within 1e-5 |n|) *)
   exists ta tb, seg_get_intersection_pt (seg_new a b) (seg_new q e) = Some (ta, tb).
 Proof.
   intros Hc Hz. unfold seg_get_intersection_pt, seg_get_intersection_pt_tag. cbn [sstart send seg_new].
@@ -120,7 +121,9 @@ Proof.
     revert Hc. generalize (vsub b a) (vsub e q). intros [A1 A2 A3] [B1 B2 B3]. unfold vlen2, vcross, vdot. cbn [vx vy vz]. rnum. intros Hc.
     pose proof (lagrange3 A1 A2 A3 B1 B2 B3) as Lg.
     rewrite Rabs_left1 by nra. nra. }
-  rewrite Hsd, Hz.
+  rewrite Hsd.
+  replace (nabs (vdot (vsub a q) (vcross (vsub b a) (vsub e q))) >? c1em5 * vlen (vcross (vsub b a) (vsub e q)))%num with false.
+  2:{ symmetry. rewrite Hz. unfold c1em5, vlen. rnum. apply Rltb_false. rewrite Rabs_R0. apply Rmult_le_pos; [lra | apply sqrt_pos]. }
   revert Hc. generalize (vsub b a) (vsub e q) (vsub a q). intros [A1 A2 A3] [B1 B2 B3] [D1 D2 D3]. unfold vlen2, vcross, c1em5. cbn [vx vy vz fst]. rnum. intros Hc.
   destruct (Rltb (1 / 100000) (Rabs (A1 * B2 - A2 * B1))) eqn:Cz; [eexists; eexists; reflexivity|].
   destruct (Rltb (1 / 100000) (Rabs (A2 * B3 - A3 * B2))) eqn:Cx; [eexists; eexists; reflexivity|].
@@ -200,10 +203,10 @@ Theorem edge_cross_count_generic (L : Loop R) (q d a b : V) :
 Proof.
   cbn zeta. intros Hnn Hnd Hon [Hab [Haq [Hpar [Hz [Hsb Hband]]]]].
   unfold edge_cross_count. rewrite Hon. cbn [rbind].
-  destruct (gip_some a b q (vadd q d)) as [ta [tb G]]; [rewrite vsub_vadd_l; exact Hpar | rewrite vsub_vadd_l; exact Hz|].
-  rewrite G.
   assert (T : vdot (vsub a q) (vcross (vsub b a) (vsub (vadd q d) q)) = 0).
   { rewrite vsub_vadd_l. apply (triple_in_plane (lnormal L)); assumption. }
+  destruct (gip_some a b q (vadd q d)) as [ta [tb G]]; [rewrite vsub_vadd_l; exact Hpar | exact T|].
+  rewrite G.
   pose proof (gip_solves a b q (vadd q d) ta tb G T) as E. rewrite vsub_vadd_l in E.
   destruct (cross_values (lnormal L) q d a b ta tb E) as [Sa [Sb [Oq Oe]]].
   set (W := vdot (lnormal L) (vcross (vsub b a) d)) in *.
